@@ -139,6 +139,66 @@ def is_ok(rv):
 CLASSES = ["short", "tkl_gt8", "tkl_trunc", "delta15", "len15", "delta13_trunc", "delta14_trunc"]
 
 
+def nibble_syms(I, st):
+    """[(symbol, low bit, is_header_byte)] for the nibble values present in a state"""
+    out = []
+    for sym in st.bounds:
+        inf = I.syminfo.get(sym)
+        if not inf or inf[0] != "bits":
+            continue
+        b = inf[1]
+        if len(b) < 4 or not all(isinstance(x, tuple) for x in b[:4]) or any(x != 0 for x in b[4:]):
+            continue
+        src, lo = b[0][1], b[0][2]
+        if any(b[i][1] != src or b[i][2] != lo + i for i in range(4)):
+            continue
+        ei = elem_info(I, src)
+        if ei is None:
+            continue
+        out.append((sym, lo, ei[2].is_const() and ei[2].c == 0))
+    return out
+
+
+def justify(I, ctx, s_err, oks):
+    """why may this edge reject?  -> reason string or None"""
+    nibs = nibble_syms(I, s_err)
+    for sname in s_err.bounds:
+        inf = I.syminfo.get(sname)
+        if inf and inf[0] == "len" and inf[1] == "buf" and s_err.lo_hi(sname)[1] <= 3:
+            return "datagram shorter than four bytes"
+    for sym, lo, hdr in nibs:
+        l, h = s_err.lo_hi(sym)
+        if hdr and lo == 0 and l >= 9:
+            return "token length nibble >= 9"
+        if not hdr and l == 15 and h == 15:
+            return "reserved nibble 15"
+    # cumulative option number beyond 65535
+    import os
+    if os.environ.get("VERIF_DEBUG_EDGE"):
+        print("EDGE", ctx.body["path"], [(n, s_err.lo_hi(n[0])) for n in nibs], [f for f in s_err.facts if f.c < -60000], [(k, v) for k, v in s_err.bounds.items() if v[0] > 60000 and v[1] < 1 << 40])
+    cands = list(s_err.facts)
+    for sname, (l_, h_) in s_err.bounds.items():
+        if 65536 - 300 <= l_ and h_ < (1 << 40) and l_ > 0:
+            cands.append(Aff.sym(sname) - 65536)
+        elif l_ >= 65536 - 300 - 269:
+            pass
+    for f in cands:
+        if -65536 <= f.c <= -65536 + 300 and all(k > 0 for _, k in f.t):
+            has_phi = any(sname.startswith("phi") for sname, _ in f.t)
+            d14 = [n for n in nibs if not n[2] and n[1] == 4 and s_err.lo_hi(n[0]) == (14, 14)]
+            l_unrefined = all(s_err.lo_hi(n[0]) != (14, 14) and s_err.lo_hi(n[0])[0] != s_err.lo_hi(n[0])[1] for n in nibs if not n[2] and n[1] == 0)
+            if has_phi:
+                return "cumulative option number > 65535"
+            if d14 and l_unrefined:
+                return "option delta alone > 65535"
+    for tg in oks:
+        evs = I.probe(ctx, tg, s_err.copy())
+        for e in evs:
+            if e.get("definite"):
+                return "protects %s at %s:%s" % (e["kind"], e["site"]["file"], e["site"]["line"])
+    return None
+
+
 def check(env, rep, tier):
     configs = ["default"] if tier == "quick" else ["default", "nodefault", "udp"]
     rep.configs = configs
@@ -183,6 +243,17 @@ def check(env, rep, tier):
                     break
             progress.append((h, found is not None, found))
         I.loop_hooks.append(loop_hook)
+        edges = {}
+
+        def edge_hook(I_, ctx, bi, tg, s_err, oks):
+            key = (ctx.body["path"], bi, tg)
+            why = justify(I_, ctx, s_err, oks)
+            e = edges.setdefault(key, {"ok": True, "why": set(), "line": ctx.body["blocks"][bi]["tspan"]["l"], "file": ctx.body["blocks"][bi]["tspan"]["f"]})
+            if why is None:
+                e["ok"] = False
+            else:
+                e["why"].add(why)
+        I.edge_hooks.append(edge_hook)
         I, res = run(prog, body, I=I)
         obs = report_obligations(rep, "C03.1", I, include_cast=True)
         if cfg == "default":
@@ -195,6 +266,18 @@ def check(env, rep, tier):
             rep.ob("C03.3", "%s|loop" % ENTRY, ok,
                    "cannot establish that the option loop of %s consumes input on every iteration (no cursor that strictly increases and stays <= len)" % ENTRY,
                    sample={"rule": "C03.3", "loop_head_bb": h, "cursor": repr(found)})
+        # ---- C03.5 every rejecting branch is justified (no over-strict guard)
+        n = {}
+        for (fn, bi, tg), e in sorted(edges.items(), key=lambda x: (x[0][0], x[1]["line"])):
+            k = n.get(fn, 0)
+            n[fn] = k + 1
+            rep.ob("C03.5", "%s|reject-edge|%d" % (fn, k), e["ok"],
+                   "the rejecting branch at %s:%s in %s is taken for inputs that are not malformed: it is neither required by a read that follows "
+                   "(forced continuation finds no certain failure) nor one of the RFC's reject conditions (token length > 8, nibble 15, option number > 65535)" % (e["file"], e["line"], fn),
+                   {"file": e["file"], "line": e["line"], "fn": fn},
+                   sample={"rule": "C03.5", "fn": fn, "line": e["line"], "justified_by": sorted(e["why"])})
+        if cfg == "default":
+            rep.floor("C03.5", "rejecting branches examined", len(edges), 10)
         # ---- C03.2 unsafe set
         uf = unsafe_fns(prog)
         reach = set(prog.bodies[b]["path"] for b in I.visited_bodies if b in prog.bodies)
